@@ -173,7 +173,7 @@ fn run_case(w: &mut Worker, c: &Case) -> CaseOut {
 pub fn run(cfg: &Cfg) -> i32 {
     let start = Instant::now();
     let _ = crate::keys::pool();
-    let n = cfg.tier.pick(6_000u64, 80_000);
+    let n = cfg.tier.pick(6_000u64, 400_000);
     let budget = cfg.tier.pick(Duration::from_secs(240), Duration::from_secs(1200));
     let ev = par_run(cfg, n, budget, |w, i| Some(run_case(w, &gen_case(w.cfg.seed, i))));
     let required = vec![
